@@ -52,7 +52,7 @@ func (c csParams) String() string {
 }
 
 func cancelStormPlans() []plan {
-	n := mon.Pick(48, 480)
+	n := mon.Pick(32, 320)
 	ps := make([]plan, n)
 	for i := range ps {
 		ps[i] = plan{mode: "cancelstorm"}
@@ -69,7 +69,7 @@ func safely(f func()) (p any) {
 
 func runCancelStorm(t *testing.T, idx int) {
 	rng := mon.NewRNG("c20-cancelstorm", idx)
-	par := csParams{adders: rng.Range(2, 6), readers: rng.Range(0, 2), second: rng.Chance(1, 3), rounds: mon.Pick(200, 400), maxSpin: rng.PickInt(1, 8, 64)}
+	par := csParams{adders: rng.Range(2, 6), readers: rng.Range(0, 2), second: rng.Chance(1, 3), rounds: mon.Pick(120, 300), maxSpin: rng.PickInt(1, 8, 64)}
 	rec.Begin(idx, "cancelstorm "+par.String()+" build="+buildName)
 	kitctx.VerifHook.Store(nil)
 	procs := par.adders + par.readers + 2
@@ -111,7 +111,7 @@ func runCancelStorm(t *testing.T, idx int) {
 			go func() {
 				defer wg.Done()
 				started.Done()
-				for n := 0; n < 500 && !stop.Load(); n++ {
+				for n := 0; n < 300 && !stop.Load(); n++ {
 					if pv := safely(func() { p.Add(extra) }); pv != nil {
 						panics.Store("Add", pv)
 						return
